@@ -7,6 +7,8 @@ def c09_general(fcp: "ref:FcpV2"):
     option("inline_calls", ["fcp.verifier:Verifier.verify"])
     ensures(result.is_ok() == wf_general(fcp))
     ensures(result.is_err() == (not wf_general(fcp)))
+    use_lemma(flat_all_1(fcp))
+    use_lemma(flat_all_2(fcp, len(fcp.structs)))
     v = make_general_verifier()
     return v.verify(fcp)
 
@@ -18,6 +20,8 @@ def c09_dbc(fcp: "ref:FcpV2"):
     option("imports", {"DbcGenerator": "fcp_dbc.generator:Generator"})
     ensures(result.is_ok() == (wf_general(fcp) and wf_dbc(fcp)))
     ensures(result.is_err() == (not (wf_general(fcp) and wf_dbc(fcp))))
+    use_lemma(flat_all_1(fcp))
+    use_lemma(flat_all_2(fcp, len(fcp.structs)))
     v = make_general_verifier()
     DbcGenerator().register_checks(v)
     return v.verify(fcp)
